@@ -218,6 +218,8 @@ def np_full(shape, fill_value):
 def np_asarray(x, *a, **k):
     if isinstance(x, V):
         return V(x.t, x.axes, None, x.nan, x.inf)
+    if hasattr(x, "as_v"):
+        return x.as_v()
     raise Undecided("np.asarray of a python container")
 
 
@@ -376,6 +378,8 @@ class VStack:
     def pyvc_getattr(self, interp, name):
         if name == "T":
             return self.T
+        if name == "astype":
+            return lambda ty, **k: VStack([v_getattr(interp, c, "astype")(ty) for c in self.comps], self.pos)
         raise Undecided(f"VStack.{name}")
 
     def _bin(self, opname, o, rev):
@@ -485,6 +489,7 @@ def v_getattr(interp, v, name):
 
         def astype(ty, **k):
             tyname = getattr(ty, "__name__", str(ty))
+            tyname = {"py_int": "int", "py_float": "float", "py_str": "str"}.get(tyname, tyname)
             if tyname in ("int", "int64", "<class 'int'>"):
                 if v.is_bool:
                     return v.like(num(v.t))
